@@ -13,12 +13,13 @@ function (`path`, `name`) called with `nargs` positional and `nkw` keyword argum
 `NotImplemented` — so that NumPy raises TypeError instead of anything densifying — exactly when the walk through
 the namespace finds nothing, the type has no attribute of that name, and the one-argument attribute fallback
 does not apply.  In every other case a function of the library, a method, or an attribute value answers. -/
-theorem array_function_lookup (env : Env) (path : List Name) (name : Name) (nargs nkw : Nat) :
-    nep18 env path name nargs nkw = Nep18.notImplemented ↔
+theorem array_function_lookup (env : Env) (fallback nsBinds tyBinds : Bool) (path : List Name) (name : Name) (nargs nkw : Nat) :
+    nep18 env fallback nsBinds tyBinds path name nargs nkw = Nep18.notImplemented ↔
       env.nsGet path name = none ∧ env.tyGet name = none ∧ ¬ (nargs = 1 ∧ nkw = 0 ∧ env.instHas name = true) := by
   unfold nep18
   cases hns : env.nsGet path name with
-  | some c => simp
+  | some c =>
+    by_cases h : (fallback && !nsBinds && env.tyGet name == some true && tyBinds) = true <;> simp [h]
   | none =>
     cases hty : env.tyGet name with
     | none =>
@@ -27,14 +28,20 @@ theorem array_function_lookup (env : Env) (path : List Name) (name : Name) (narg
       cases c <;> by_cases h1 : nargs = 1 <;> by_cases h2 : nkw = 0 <;> cases h3 : env.instHas name <;> simp [h1, h2, h3]
 
 /-- the lookup never answers with the namespace when the namespace has nothing, and never calls a type attribute
-that does not exist: the three answers are justified by what exists -/
-theorem array_function_lookup_sound (env : Env) (path : List Name) (name : Name) (nargs nkw : Nat) :
-    (nep18 env path name nargs nkw = Nep18.callNamespace → (env.nsGet path name).isSome) ∧
-    (nep18 env path name nargs nkw = Nep18.callTypeAttr → (env.tyGet name).isSome) ∧
-    (nep18 env path name nargs nkw = Nep18.attrValue → env.instHas name = true) := by
+that does not exist: the three answers are justified by what exists; and the `_binds` step only ever moves a call
+from a namespace function that cannot take it to a callable attribute of the type that can -/
+theorem array_function_lookup_sound (env : Env) (fallback nsBinds tyBinds : Bool) (path : List Name) (name : Name) (nargs nkw : Nat) :
+    (nep18 env fallback nsBinds tyBinds path name nargs nkw = Nep18.callNamespace → (env.nsGet path name).isSome) ∧
+    (nep18 env fallback nsBinds tyBinds path name nargs nkw = Nep18.callTypeAttr → (env.tyGet name).isSome) ∧
+    (nep18 env fallback nsBinds tyBinds path name nargs nkw = Nep18.attrValue → env.instHas name = true) ∧
+    (nep18 env fallback nsBinds tyBinds path name nargs nkw = Nep18.callTypeAttr → (env.nsGet path name).isSome →
+        fallback = true ∧ nsBinds = false ∧ tyBinds = true ∧ env.tyGet name = some true) := by
   unfold nep18
   cases hns : env.nsGet path name with
-  | some c => simp
+  | some c =>
+    cases hty : env.tyGet name with
+    | none => cases fallback <;> cases nsBinds <;> cases tyBinds <;> simp
+    | some b => cases b <;> cases fallback <;> cases nsBinds <;> cases tyBinds <;> simp
   | none =>
     cases hty : env.tyGet name with
     | none =>
